@@ -81,7 +81,15 @@ def load_template(path: Path, root: Path = REPO) -> Template:
         tree = env.parse(src)
     except jinja2.TemplateSyntaxError as e:
         raise AnalysisError(f"template {rel} does not parse: {e}")
-    und = set(meta.find_undeclared_variables(tree))
+    # filters/tests registered by the executor at run time are unknown here: declare them so that the tree compiles
+    for f in tree.find_all(nodes.Filter):
+        env.filters.setdefault(f.name, lambda x, *a, **k: x)
+    for t in tree.find_all(nodes.Test):
+        env.tests.setdefault(t.name, lambda x, *a, **k: True)
+    try:
+        und = set(meta.find_undeclared_variables(tree))
+    except jinja2.TemplateError as e:
+        raise AnalysisError(f"template {rel} cannot be analysed: {e}")
     has = bool(_TAG.search(src))
     # offsets of for tags, in order
     for_tags = [m for m in re.finditer(r"\{%-?\s*for\s+(\w+)\s+in\s+(.*?)\s*-?%\}", src, re.S)]
